@@ -9,7 +9,7 @@ Definition struct_parsed (arg : option dx_args) (s : item_struct)
   fentries_from_fields (s_fields s) (kinds_extend (kinds_new true) es) = Ok fs.
 
 Definition struct_outcome (s : item_struct) (h : hattrs) (fs : list fentry) (e : entry) : outcome :=
-  apply_dump e (build_struct_entry s h fs e).
+  apply_dump e (build_struct_entry s h (fields_for s (en_kind e) fs) e).
 
 Lemma struct_core_entries arg s es h fs :
   struct_parsed arg s es h fs ->
